@@ -39,6 +39,8 @@ CLAIMS = {
          "Pointer-level, one container at a time (composition over the tree is the meta step M-tree). encoding/json's Unmarshal/Marshal/Compact at the used instantiations are assumed (KR contracts in contracts/root.spec). replace of an absent object member succeeds in v4 (outside the property's domain of applicable patches). "),
  "C19": (TECH, "Legacy root package merge.go: merge, mergeDocs, pruneNulls, pruneDocNulls, pruneAryNulls and doMergePatch are verified from their SSA: RFC 7396's branches are pinned by call-site clauses and closed callee lists (null member deletes only when applying, new members are pruned only when applying, existing members are merged recursively with the same mode, arrays are left untouched), ill-formed documents and patches are rejected, no node holding the text null is ever stored; lazyNode.equal treats an absent operand as unequal and leaves already-parsed nodes untouched.",
          "Member-dispatch level (as C02/C07); CreateMergePatch/getDiff/matchesValue are verified one level of the difference at a time as in C03 (numbers compared as float64 values, the v4 dialect); the round-trip/minimality composition is a meta step; Equal's agreement with structural equality is proved one level at a time only for the null/absent cases. Assumes A-merge-entry and the KR contracts. "),
+ "C20": (TECH, "main of the json-patch command (v5/cmd and the root copy) is verified from its SSA: the patch files are read in the order of the option slice, each is decoded from exactly the bytes read, the document read from standard input is folded through Patch.Apply in that order, each patch applied to the result of the previous one (call-site clauses with loop invariants), the only write to standard output is one Printf with the constant format \"%s\" and the final document as its single []byte operand (ghost state Stdout), and every failure (flag parsing, reading, decoding, applying) ends in log.Fatalf with nothing written to standard output before it; Apply's preconditions (a patch DecodePatch returned) are discharged at the call.",
+         "Process-level behaviour is assumed, not proved: log.Fatalf writes to standard error and exits with status 1 without returning, a normal return of main is exit status 0, fmt.Printf with \"%s\" writes the operand verbatim, go-flags fills the option slice in command-line order through FileFlag.UnmarshalFlag (verified only for panic freedom; os.Stat/filepath.Abs assumed), ioutil.ReadFile/ReadAll return the file / standard input. "),
 }
 NA_REASON = {
  "C17": "reflection-driven codec over arbitrary Go types and relational equivalence with encoding/json are outside what function contracts within reach of an SSA-level VC generator can express (DESIGN.md section 15)",
